@@ -166,18 +166,22 @@ def write_evidence(prop: str, tier: str, level: str, obligations: list, *, wall_
                    extra: dict | None = None):
     EVIDENCE_DIR.mkdir(exist_ok=True, parents=True)
     counted = [o for o in obligations if not o.report_only]
-    discharged = [o for o in counted if o.status == "discharged"]
-    proved = [o for o in discharged if o.bounded is None]
-    bounded = [o for o in counted if o.bounded is not None]
+    unb = [o for o in counted if o.bounded is None]            # unbounded / full-domain: the proof claim
+    bounded = [o for o in counted if o.bounded is not None]   # bounded stand-ins: never counted as proved
+    discharged = [o for o in unb if o.status == "discharged"]
+    proved = discharged
+    b_discharged = [o for o in bounded if o.status == "discharged"]
     samples = []
     for o in obligations[:6]:
         samples.append({"obligation": o.id, "engine": o.engine, "functions": o.functions,
                         "statement": o.statement[:600], "status": o.status,
                         "bounded": o.bounded, "solver_s": round(o.solver_s, 3)})
     cov = {
-        "obligations": len(counted),
+        "obligations": len(unb),
         "discharged": len(discharged),
-        "proved_unbounded": len(proved),
+        "known_findings": [o.id for o in counted if o.status == "known-finding"],
+        "bounded_total": len(bounded),
+        "bounded_discharged": len(b_discharged),
         "bounded_obligations": [{"id": o.id, "bound": o.bounded, "status": o.status} for o in bounded],
         "checker_cmd": checker_cmd,
         "trusted_base": trusted_base,
@@ -185,7 +189,7 @@ def write_evidence(prop: str, tier: str, level: str, obligations: list, *, wall_
         # non-trivial ones are those the verifier actually had to solve
         # (solver time or check count > 0) and that were discharged.
         "evaluations": len(obligations),
-        "distinct_nontrivial": len({o.id for o in discharged if (o.checks > 0 or o.solver_s > 0)}),
+        "distinct_nontrivial": len({o.id for o in (discharged + b_discharged) if (o.checks > 0 or o.solver_s > 0)}),
         "rule": "one evaluation per proof obligation (a function or lemma under contract for Verus, "
                 "a proof harness for Kani); non-trivial = discharged with a non-zero number of "
                 "solver checks / resource units",
